@@ -7,7 +7,12 @@ export GOFLAGS=-mod=mod GOPROXY=off
 wt=/tmp/wt-confirm-$name-$$
 git -C /repo worktree add --detach -f $wt HEAD >/dev/null 2>&1 || exit 2
 demo_path=$(python3 -c "import json;print(json.load(open('$d/meta.json'))['demo_path'])")
-demo_cmd=$(python3 -c "import json,re;print(re.sub(r'\s+\((?!.*\)\s*\S).*$','',json.load(open('$d/meta.json'))['demo_cmd'].strip()))")
+demo_cmd=$(python3 -c "
+import json,re
+c=re.sub(r'\s+\((?!.*\)\s*\S).*$','',json.load(open('$d/meta.json'))['demo_cmd'].strip())
+if '<repo>' in c:  # 'cp demo <repo>/pkg/ && cd <repo> && go test ...': keep the command proper
+    c=c.split('&&')[-1].strip()
+print(c)")
 demo_file=$(basename $demo_path); [ -f $d/$demo_file ] || demo_file=$(ls $d | grep -E '\.go$' | head -1)
 mkdir -p $wt/$(dirname $demo_path); cp $d/$demo_file $wt/$demo_path
 cd $wt
